@@ -1,10 +1,12 @@
 from .common import H
 
-# Open MPI on this machine: shared memory / loopback only, no network interfaces needed
-ENV = dict(GALOIS_DEBUG_SKIP=1, OMPI_MCA_btl="self,vader", OMPI_MCA_rmaps_base_oversubscribe=1,
-           OMPI_MCA_mpi_yield_when_idle=1)
+# Open MPI on this machine: shared memory / loopback only (no network interfaces needed); ranks yield while they
+# wait so that np x threads may exceed the free cores. GALOIS_DEBUG_SKIP: Debug (asan) builds do not print gDebug lines.
+ENV = dict(GALOIS_DEBUG_SKIP=1, OMPI_MCA_btl="self,vader", OMPI_MCA_mpi_yield_when_idle=1)
 
-NCOMBOS = 30  # rows of COMBOS[] in harness/c19_main.cpp: 28 Input.h scheme/direction combinations + 2 MiningGraph policies
+# rows of COMBOS[] in harness/c19_main.cpp: the 28 (scheme, direction) combinations of DistBench/Input.h
+# (11 schemes x out/in edge iteration + 6 symmetric) + 2 MiningGraph policies; case k uses row (k + 7*seed + 3*salt) % 30
+NCOMBOS = 30
 
 
 def c19(tier):
@@ -13,24 +15,79 @@ def c19(tier):
         for np, cases in ((1, 30), (2, 60), (3, 60), (4, 60)):
             runs.append(H("c19_partition", "dist", cases, None, env=ENV, mpi=np, params=dict(salt=np),
                           timeout_per_case=60, timeout_base=180))
+        # asserts on + ASan/UBSan: one pass over all combinations on 3 hosts (odd host count: 3x1 Cartesian grid)
+        runs.append(H("c19_partition", "dist-asan", 30, None, env=ENV, mpi=3, params=dict(salt=13, maxnodes=600),
+                      timeout_per_case=120, timeout_base=240))
     else:
-        for np, cases in ((1, 60), (2, 300), (3, 300), (4, 300)):
+        for np, cases in ((1, 90), (2, 420), (3, 420), (4, 420)):
             runs.append(H("c19_partition", "dist", cases, None, env=ENV, mpi=np, params=dict(salt=np),
                           timeout_per_case=90, timeout_base=240))
-        for np, cases in ((2, 60), (3, 60), (4, 60)):
-            runs.append(H("c19_partition", "dist-asan", cases, None, env=ENV, mpi=np, params=dict(salt=10 + np, maxnodes=1500),
-                          timeout_per_case=180, timeout_base=300))
+        for np, cases in ((1, 30), (2, 90), (3, 90), (4, 90)):
+            runs.append(H("c19_partition", "dist-asan", cases, None, env=ENV, mpi=np,
+                          params=dict(salt=10 + np, maxnodes=1500, nohuge=1), timeout_per_case=180, timeout_base=300))
     return runs
 
 
 SPEC = dict(
     runs=c19,
-    technique="runtime monitoring (differential): cuspPartitionGraph / MiningGraph on 1-4 MPI hosts over generated .gr files "
-              "written by an independent codec; what every host exposes through DistGraph's public accessors is gathered "
-              "with plain MPI and compared on rank 0 with the generated graph",
-    level_text="to be filled",
-    level_note="to be filled",
-    rule="to be filled",
-    require={"edges_checked": 1000},
-    assumptions=[],
+    technique="runtime monitoring (differential): the real partitioner (cuspPartitionGraph<Policy, char, void|uint32_t>, and "
+              "MiningGraph) runs under mpirun on 1-4 hosts over generated .gr files written by the independent codec of "
+              "/verif/ref; what every host exposes through DistGraph's public accessors (getGID/getLID/isLocal/isOwned/"
+              "getHostID, numMasters, getNumNodesWithEdges, masterNodesRange, edges/getEdgeDst/getEdgeData, getMirrorNodes, "
+              "cartesianGrid) is gathered with plain MPI collectives on a private communicator and compared on rank 0 with "
+              "the generated graph; ASan/UBSan build with asserts on; seeded arrival-order noise (one host sleeps, failpoint noise)",
+    level_text="Every (scheme, direction) combination that DistBench/Input.h offers (oec, iec, hovc, hivc, cvc, cvc-iec, "
+               "ginger-o/i, fennel-o/i, sugar-o; out-edge, in-edge (CSC / in-memory transpose) and symmetric construction -> "
+               "policy classes NoCommunication, GenericHVC, GenericCVC, GenericCVCColumnFlip, GingerP, FennelP, SugarP, "
+               "SugarColumnFlipP) plus MiningGraph<MiningPolicyDegrees|Naive> is run on 1, 2, 3 and 4 MPI hosts with 1-2 "
+               "threads, with the default arguments of Input.h and with generated options (cuspAsync on/off, stateRounds "
+               "1/2/3/7/100, the three read-balancing policies with node/edge weights, a masters block file for oec/iec), edge "
+               "data void / uint32 / void over a file that carries data, on generated graphs (isolated nodes, no edges at all, "
+               "stars and hubs with > 1000 edges, fewer nodes than hosts, hosts without nodes or edges, self loops, parallel "
+               "edges, paths, grids, power-law, dense, random; thorough tier: a few graphs with ~2M edges so that send buffers "
+               "are flushed inside the edge loop). Checked per case: the union of the local edges equals the input multiset "
+               "(transposed input for in-memory transposed construction; data equal), every node has exactly one master, both "
+               "end points of every local edge are proxies of that host, getLID(getGID(l)) == l and getGID(getLID(g)) == g, the "
+               "owned proxies are exactly local ids [0, numMasters()), getHostID/isOwned agree with the master found, every "
+               "mirror proxy is in exactly one mirror list and that list's peer is its master, no edges at local ids >= "
+               "getNumNodesWithEdges(), and the placement promised by the policy (edge cut: edge at its source's master; hybrid "
+               "cut: per source all edges at its master or all at their destinations' masters; Cartesian cut: host in the grid "
+               "row of the source's master and the grid column of the destination's master; read-assignment policies: masters "
+               "are contiguous blocks in host order). Held on the cases observed, not for all graphs/schedules.",
+    level_note="Trusts the reference .gr codec and generator (/verif/ref/gr_codec.h), MPI collectives on a duplicated "
+               "communicator, and that the public accessors report the state the applications see. The peer's master lists "
+               "are built by Gluon from the mirror lists (C18); here the partition-level fact is checked: every entry of A's "
+               "mirror list for B is a mirror proxy on A and a master on B. Message arrival orders are whatever MPI and the OS "
+               "produce plus one sleeping host and failpoint noise per case.",
+    rule="case = (Input.h scheme x direction -> policy class, input/output format, symmetric) x options (defaults or cuspAsync, "
+         "stateRounds, read policy, weights, masters file) x edge data mode x threads x generated graph, on one host count; "
+         "non-trivial iff >= 2 hosts, the graph has an edge and (some mirror proxy exists or at least two hosts hold edges); "
+         "distinct by (scheme/direction, hosts, threads, graph kind, edge data mode, option class, masters file, whether a host "
+         "got no node)",
+    require={"edges_checked": 100000, "proxies_checked": 30000, "mirrors": 5000, "mirror_list_entries": 5000,
+             "policy_checked_edges": 100000, "hostid_queries": 30000, "hosts_without_nodes": 5, "hosts_without_edges": 20,
+             "cases_nodes_lt_hosts": 2, "sources_over_1000_edges": 5, "sources_placed_at_destination_masters": 1,
+             "cases_transposed_in_memory": 20, "cases_symmetric": 15, "cases_input_csc": 20, "cases_edge_data": 30,
+             "cases_async": 30, "cases_masters_file": 3, "cases_defaults": 15, "cases_multi_host": 150,
+             "cases_two_threads": 40, "cases_mining": 6},
+    assumptions=[
+        "Input domain (from BufferedGraph.h/OfflineGraph.h/CuSPPartitioner.h and the dist apps): version-1 .gr files (BufferedGraph "
+        "documents version 1 only), at least one node, node ids < 2^32, edge data void or uint32_t with a file whose edge data size "
+        "matches (or void over a file that carries data), stateRounds >= 1, the transpose file really is the transpose of the "
+        "graph file, symmetric=true only with a symmetric graph. The empty (0-node) graph is not generated "
+        "(BALANCED_MASTERS_AND_EDGES divides by the node count).",
+        "Policies with a master assignment phase (GingerP, FennelP, SugarP, SugarColumnFlipP) only know the masters of the nodes a "
+        "host holds or read (retrieveMaster GALOIS_DIEs otherwise, documented in BasePolicies.h): getHostID/isOwned are only asked "
+        "about proxies there, about every global id for the read-assignment policies.",
+        "Order of edges inside a node and order of entries inside a mirror list are not judged; 'the peer's list of masters' is "
+        "derived from the mirror list by Gluon (same order by construction) and is not exposed by DistGraph.",
+        "Hybrid cut: the degree threshold (1000) is not judged, only that a source's edges are placed consistently; which "
+        "alternative was taken is counted in the evidence.",
+        "MiningGraph (not reachable through cuspPartitionGraph) replicates and filters edges by design: on simple symmetric graphs "
+        "the oracle demands the kept edges (policy keepEdge) exactly once under master sources and that every edge under a "
+        "mirror source is a kept input edge; node-level checks as for the other policies.",
+        "The masters block file format is undocumented (hidden -mastersFile option): lines 'Host h gets masters from nodes L to "
+        "node R' (token 6 = first node, token 9 = last node, inclusive), non-empty blocks, as readersFromFile parses them.",
+        "isTransposed() is recorded, not judged. A wall-clock watchdog (hung rank) makes a case inconclusive, never a violation.",
+    ],
 )
